@@ -5,6 +5,10 @@ Tables and constants only, no code:
   * id widths and conversion style of NameId / NamespaceId / PrefixId   (src/id/*.rs)
   * the built-in strings registered by Xot::new, in order               (src/xotdata.rs)
   * the three HTML namespace URIs and the five HTML name tables         (src/output/html5elements.rs)
+  * the character level of src/entity.rs: the predefined entities parse_content knows, the escape every match arm of
+    serialize_attribute and every unguarded arm of serialize_text writes, the escape of the guarded '>' arms, and the
+    character ranges of is_xml_char
+  * the white-space characters and the xml:space literal of src/unpretty.rs
 Exit status 2 (and a message on stderr) when an expected declaration cannot be found: the tie
 between model and source is then broken and ./check reports that.
 """
@@ -71,6 +75,124 @@ def id_info(src, ty, rel):
     else:
         raise TieBroken(f"{rel}: cannot classify the index conversion in to_id: {b.strip()!r}")
     return width, checked
+
+
+def rust_char_lit(body):
+    """the character a Rust char literal denotes (body = what stands between the quotes)"""
+    if body.startswith("\\u{") and body.endswith("}"):
+        return chr(int(body[3:-1], 16))
+    if body.startswith("\\"):
+        return {"n": "\n", "t": "\t", "r": "\r", "\\": "\\", "'": "'", '"': '"', "0": "\0"}[body[1:]]
+    if len(body) != 1:
+        raise TieBroken(f"src/entity.rs: char literal not understood: {body!r}")
+    return body
+
+
+CHAR = r"'((?:\\u\{[0-9A-Fa-f]+\}|\\.|[^'\\]))'"
+
+
+def fn_body(src, name, rel):
+    m = re.search(r"fn %s\b" % name, src)
+    if not m:
+        raise TieBroken(f"{rel}: cannot find fn {name}")
+    # the body starts at the first '{' after the signature's return type
+    sig_end = src.index("{", src.index("->", m.end()))
+    depth, j = 0, sig_end
+    while True:
+        c = src[j]
+        if c == "{":
+            depth += 1
+        elif c == "}":
+            depth -= 1
+            if depth == 0:
+                return src[sig_end:j + 1]
+        elif c == "'" :
+            # skip a char literal such as '{' or '\''
+            mm = re.match(CHAR, src[j:])
+            if mm:
+                j += mm.end() - 1
+        elif c == '"':
+            mm = re.match(r'"(?:[^"\\]|\\.)*"', src[j:])
+            if mm:
+                j += mm.end() - 1
+        elif src.startswith("//", j):
+            j = src.index("\n", j)
+        j += 1
+
+
+def entity_tables(src, rel, emit):
+    strip = lambda t: re.sub(r"//[^\n]*", "", t)
+    # predefined entities of parse_content
+    body = strip(fn_body(src, "parse_content", rel))
+    m = re.search(r"match entity\.as_str\(\) \{(.*?)_ =>", body, re.S)
+    if not m:
+        raise TieBroken(f"{rel}: cannot find the predefined-entity match in parse_content")
+    ents = re.findall(r"\"(\w+)\" => result\.push\(%s\)" % CHAR, m.group(1))
+    left = re.sub(r"\"(\w+)\" => result\.push\(%s\)," % CHAR, "", m.group(1)).strip()
+    if not ents or left:
+        raise TieBroken(f"{rel}: predefined-entity arms not understood: {left[:60]!r}")
+    emit("Definition named_entities : list (list N * N) :=\n  [%s]." % "; ".join(
+        "(%s, %d)" % (coq_str(n), ord(rust_char_lit(c))) for n, c in ents))
+    # the attribute-value rule of parse_content
+    if not re.search(r"else if attribute && \(c == '\\t' \|\| c == '\\n'\)\s*\{[^}]*result\.push\(' '\)", body):
+        raise TieBroken(f"{rel}: the attribute-value normalisation branch of parse_content changed")
+
+    def arms(fn):
+        b = strip(fn_body(src, fn, rel))
+        m = re.search(r"match c \{(.*)\}\s*\}\s*(?:if !change|result)", b, re.S)
+        if not m:
+            raise TieBroken(f"{rel}: cannot find `match c` in {fn}")
+        return m.group(1)
+
+    def simple_arms(text, fn):
+        # 'x' => { change = true; result.push_str("...") }     (no guard)
+        out = []
+        for mm in re.finditer(r"%s\s*=>\s*\{\s*change = true;\s*result\.push_str\((\"[^\"]*\")\)\s*;?\s*\}" % CHAR, text):
+            out.append((rust_char_lit(mm.group(1)), rust_str_lit(mm.group(2))))
+        return out
+
+    a = arms("serialize_attribute")
+    at = simple_arms(a, "serialize_attribute")
+    rest = re.sub(r"%s\s*=>\s*\{\s*change = true;\s*result\.push_str\((\"[^\"]*\")\)\s*;?\s*\}" % CHAR, "", a).strip()
+    if rest.replace(",", "").strip() != "_ => result.push(c)":
+        raise TieBroken(f"{rel}: serialize_attribute has arms the translator does not understand: {rest[:80]!r}")
+    emit("Definition attr_escapes : list (N * list N) :=\n  [%s]." % "; ".join("(%d, %s)" % (ord(c), coq_str(e)) for c, e in at))
+    t = arms("serialize_text")
+    tt = simple_arms(t, "serialize_text")
+    emit("Definition text_escapes : list (N * list N) :=\n  [%s]." % "; ".join("(%d, %s)" % (ord(c), coq_str(e)) for c, e in tt))
+    g = re.findall(r"'>' if !unescaped_gt\s*=>\s*\{\s*change = true;\s*result\.push_str\((\"[^\"]*\")\)", t)
+    g2 = re.findall(r"'>' if unescaped_gt\s*=>", t)
+    if len(g) != 1 or len(g2) != 1:
+        raise TieBroken(f"{rel}: the two guarded '>' arms of serialize_text changed")
+    inner = re.findall(r"result\.push_str\((\"[^\"]*\")\);\s*continue;", t)
+    if len(inner) != 1 or inner[0] != g[0]:
+        raise TieBroken(f"{rel}: the ']]>' branch of serialize_text does not write the same escape as the plain '>' arm")
+    emit("Definition text_gt_escape : list N := %s." % coq_str(rust_str_lit(g[0])))
+    # every other arm of serialize_text must be one of those above or the fall-through
+    rest = re.sub(r"%s\s*=>\s*\{\s*change = true;\s*result\.push_str\((\"[^\"]*\")\)\s*;?\s*\}" % CHAR, "", t)
+    rest = re.sub(r"'>' if !unescaped_gt\s*=>\s*\{[^}]*\}", "", rest)
+    i = rest.find("'>' if unescaped_gt")
+    if i < 0 or "_ => result.push(c)" not in rest[i:]:
+        raise TieBroken(f"{rel}: serialize_text arms not understood")
+    if rest[:i].replace(",", "").strip():
+        raise TieBroken(f"{rel}: serialize_text has arms the translator does not understand: {rest[:i].strip()[:80]!r}")
+    # is_xml_char
+    m = re.search(r"fn is_xml_char\(c: char\) -> bool \{\s*matches!\(c,(.*?)\)\s*\}", src, re.S)
+    if not m:
+        raise TieBroken(f"{rel}: cannot find is_xml_char")
+    ranges = []
+    for alt in m.group(1).split("|"):
+        alt = alt.strip()
+        mm = re.fullmatch(r"%s\.\.=%s" % (CHAR, CHAR), alt)
+        if mm:
+            ranges.append((ord(rust_char_lit(mm.group(1))), ord(rust_char_lit(mm.group(2)))))
+            continue
+        mm = re.fullmatch(CHAR, alt)
+        if not mm:
+            raise TieBroken(f"{rel}: is_xml_char alternative not understood: {alt!r}")
+        ranges.append((ord(rust_char_lit(mm.group(1))),) * 2)
+    emit("Definition xml_char_ranges : list (N * N) := [%s]." % "; ".join("(%d, %d)" % r for r in ranges))
+    emit("")
 
 
 def main():
@@ -152,6 +274,35 @@ def main():
     if [a for a, _ in order] != [b for _, b in order] or sorted(a for a, _ in order) != sorted(tables):
         raise TieBroken(f"{rel}: HtmlNames::new calls not recognised: {order}")
     emit("Definition html_table_order : list (list (list N)) := [%s]." % "; ".join(a for a, _ in order))
+    emit("")
+
+    # --- character level
+    rel = "src/entity.rs"
+    src = read(repo, rel)
+    inputs[rel] = src
+    entity_tables(src, rel, emit)
+
+    # --- white space of remove_insignificant_whitespace
+    rel = "src/unpretty.rs"
+    src = read(repo, rel)
+    inputs[rel] = src
+    m = re.search(r"fn is_whitespace\(text: &str\) -> bool \{(.*?)\n\}", src, re.S)
+    if not m:
+        raise TieBroken(f"{rel}: cannot find is_whitespace")
+    mm = re.search(r"text\.chars\(\)\.all\(\|c\| matches!\(c,(.*?)\)\)", re.sub(r"//[^\n]*", "", m.group(1)), re.S)
+    if not mm:
+        raise TieBroken(f"{rel}: is_whitespace is no longer `all(|c| matches!(c, ...))`")
+    ws = []
+    for alt in mm.group(1).split("|"):
+        a = re.fullmatch(CHAR, alt.strip())
+        if not a:
+            raise TieBroken(f"{rel}: is_whitespace alternative not understood: {alt.strip()!r}")
+        ws.append(ord(rust_char_lit(a.group(1))))
+    emit("Definition xml_ws_chars : list N := [%s]." % "; ".join(str(c) for c in ws))
+    m = re.search(r"fn in_preserve_space.*?return value == (\"[^\"]*\");", src, re.S)
+    if not m:
+        raise TieBroken(f"{rel}: in_preserve_space no longer compares the nearest xml:space value with one literal")
+    emit("Definition xml_space_preserve : list N := %s." % coq_str(rust_str_lit(m.group(1))))
     emit("")
 
     text = "\n".join(lines) + "\n"
